@@ -207,55 +207,55 @@ def moduliToC(E = None, nu = None, G = None, lam = None, K = None, M = None):
     # lam-K -> E,nu -> E,G,nu
     # lam-M -> E,nu -> E,G,nu
     # K-M -> E,nu -> E,G,nu
-    if E:
-        if nu:
+    if E is not None:
+        if nu is not None:
             G = E / (2 * (1 + nu))
-        elif G:
+        elif G is not None:
             nu = E / (2 * G) - 1
-        elif lam:
+        elif lam is not None:
             R = np.sqrt(E**2 + 9*lam**2 + 2*E*lam)
             nu = 2*lam / (E + lam + R)
             G = (E - 3*lam + R) / 4
-        elif K:
+        elif K is not None:
             nu = (3*K - E) / (6*K)
             G = 3*K*E / (9*K - E)
-        elif M:
+        elif M is not None:
             S = np.sqrt(E**2 + 9*M**2 - 10*E*M)
             nu = (E - M + S) / (4*M)
             G = (3*M + E - S) / 8
-    elif nu:
-        if G:
+    elif nu is not None:
+        if G is not None:
             E = 2*G*(1 + nu)
-        elif lam:
+        elif lam is not None:
             E = lam * (1 + nu) * (1 - 2*nu) / nu
             G = lam * (1 - 2*nu) / (2*nu)
-        elif K:
+        elif K is not None:
             E = 3*K*(1 - 2*nu)
             G = 3*K*(1 - 2*nu) / (2*(1 + nu))
-        elif M:
+        elif M is not None:
             E = M * (1 + nu) * (1 - 2*nu) / (1 - nu)
             G = M * (1 - 2*nu) / (2 * (1 - nu))
-    elif G:
-        if lam:
+    elif G is not None:
+        if lam is not None:
             E = G * (3*lam + 2*G) / (lam + G)
             nu = lam / (2*(lam + G))
-        elif K:
+        elif K is not None:
             E = 9*K*G / (3*K + G)
             nu = (3*K - 2*G) / (2*(3*K + G))
-        elif M:
+        elif M is not None:
             E = G * (3*M - 4*G) / (M - G)
             nu = (M - 2*G) / (2*M - 2*G)
-    elif lam:
-        if K:
+    elif lam is not None:
+        if K is not None:
             E = 9*K*(K - lam) / (3*K - lam)
             G = 3*(K - lam) / 2
             nu = lam / (3*K - lam)
-        elif M:
+        elif M is not None:
             E = (M - lam) * (M + 2*lam) / (M + lam)
             G = (M - lam) / 2
             nu = lam / (M + lam)
-    elif K:
-        if M:
+    elif K is not None:
+        if M is not None:
             E = 9*K*(M - K) / (3*K + M)
             G = 3*(M - K) / 4
             nu = (3*K - M) / (3*K + M)
